@@ -4,8 +4,10 @@ mod adversary;
 mod alloc;
 mod checks;
 mod gen;
+mod gen_b;
 mod known;
 mod minimize;
+mod oracle_conn;
 mod oracle_rate;
 mod oracle_transport;
 mod oracle_twin;
